@@ -22,12 +22,25 @@ Theorem C10_parse_rejects : forall c r, c <> SLASH -> ptr_parse (c :: r) = Err.
 Proof. exact parse_rejects. Qed.
 Print Assumptions C10_parse_rejects.
 
-(* Evaluation agrees with the RFC 6901 reference (members by name, elements by canonical index,
-   nothing if any step is missing) for tokens that are not of the form name[digits]. *)
+(* Evaluation IS the RFC 6901 reference (members by name, elements by canonical index, nothing if any step is
+   missing), for EVERY pointer and document.  (On the pinned tree — and until the 29th repair — this held only for
+   tokens not of the form name[digits]: Path.Eval looked members up with Child, which reads "items[1]" as item 1 of the
+   list "items"; the hypothesis the proof had forced, [forallb plain_tok p = true], was that defect.) *)
+Theorem C10_eval_is_rfc : forall p d, snd (ptr_eval p d) = rfc6901_eval p d.
+Proof. exact eval_is_rfc. Qed.
+Print Assumptions C10_eval_is_rfc.
+
+(* the earlier, conditional form, kept for the proofs of C09 that cite it *)
 Theorem C10_eval_refines_rfc : forall p d,
   forallb plain_tok p = true -> snd (ptr_eval p d) = rfc6901_eval p d.
 Proof. exact eval_refines_rfc. Qed.
 Print Assumptions C10_eval_refines_rfc.
+
+(* non-vacuity of the repair: a token that LOOKS like a list position names a member — here an absent one *)
+Example C10_ex_token_with_brackets :
+  let d := Con [("items"%string, Lst [Leaf (SStr "x"); Leaf (SStr "y")])] in
+  snd (ptr_eval ["items[1]"%string] d) = None /\ snd (ptr_eval ["items"; "1"]%string d) = Some (Leaf (SStr "y")).
+Proof. vm_compute. split; reflexivity. Qed.
 
 (* When the pointer resolves, the trail has one node per token and its last element is the node. *)
 Theorem C10_eval_trail : forall p d tr n,
